@@ -11,6 +11,9 @@ CONSTANTS
   DirAtStart = TRUE
   PersistMkdir = TRUE
   LoaderExact = TRUE
+  RefreshTemp = "leave"
+  Faults = {}
+  Cleanup = "temp"
 INIT InitR
 NEXT NextR
 CHECK_DEADLOCK FALSE
